@@ -346,6 +346,16 @@ func uuptrsEqual(l, k reflect.Kind, x, y reflect.Value) error {
 }
 
 func stackageStructsEqual(x, y any) (tried bool, err error) {
+	// elements of slices and arrays arrive here
+	// as reflect.Value instances: unwrap them so
+	// that the converters below recognize them.
+	if v, ok := x.(reflect.Value); ok && v.IsValid() && v.CanInterface() {
+		x = v.Interface()
+	}
+	if v, ok := y.(reflect.Value); ok && v.IsValid() && v.CanInterface() {
+		y = v.Interface()
+	}
+
 	// Are they both condition/condition alias?
 	if icd, iokc := conditionTypeAliasConverter(x); iokc {
 		tried = true
